@@ -174,6 +174,10 @@ SCUnspecified(S, op) ==
 RemoveExact(S, e, T) ==
   e \in EdgeSet(S) => EdgeSet(T) = EdgeSet(S) \ (SupIds(S, e) \cup {e})
                       /\ \A f \in EdgeSet(T) : T.e2n[f] = S.e2n[f]
+\* remove_simplex_ids_from(ids) that returns: exactly the named simplices and the simplices containing one of them
+RemoveExactBulk(S, ids, T) ==
+  LET gone == UNION {SupIds(S, e) \cup {e} : e \in ids \cap EdgeSet(S)}
+  IN EdgeSet(T) = EdgeSet(S) \ gone /\ \A f \in EdgeSet(T) : T.e2n[f] = S.e2n[f]
 \* simplices created by an add with max_order = k have at most k+1 nodes
 MaxOrderRespected(S, k, T) ==
   k # None => \A e \in EdgeSet(T) \ EdgeSet(S) : Cardinality(T.e2n[e]) <= k + 1
